@@ -18,6 +18,13 @@ are handed, as exact rationals, to the verified checkers of the Lean model:
 
 The property's own upper-bound clause is evaluated on its 40,000-point grid plus local refinement for every
 case (the certificate, where it succeeds, extends it to the continuum; which one decided is counted).
+
+Usage axes (gen_approx: near_points / history_plans / run_history): the local refinement is repeated with *scalar* calls of
+the returned polynomial next to every reference point (array and scalar queries may take different code paths), and the
+polynomial is called several times with equally shaped queries while every returned object is kept (no copy), one of them
+overwritten by the caller, the caller's query array refilled in place.  Every value handed out is judged by the upper-bound
+clause (f enclosed in rationals) and compared with the exact interpolant of the node values; returned objects must not share
+memory with each other or with the query.
 """
 import os
 import warnings
@@ -131,6 +138,107 @@ def sqrt_bracket(a, b):
     return tl, th
 
 
+def usage_queries(inp, a, b, rs):
+    """how the returned polynomial is used (derived from the case only, so that a replay regenerates it): scalar queries at a
+    ladder of small distances from the reference points (where |f-p| is largest and a local refinement probes), and call
+    sequences whose results are kept across calls"""
+    hrng = G.case_rng("C17-usage", inp)
+    idx = list(range(len(rs)))
+    if len(idx) > 8:
+        idx = sorted([0, len(rs) - 2, len(rs) - 1] + hrng.sample(idx[1:-2], 5))
+    near = G.near_points([float(rs[i]) for i in idx], b - a, lo=a, hi=b)
+    near = [(x, idx[i], d) for x, i, d in near]
+    pool = ([t[0] for t in hrng.sample(near, min(len(near), 5))] + [float(r) for r in hrng.sample(list(rs), min(len(rs), 3))]
+            + [hrng.uniform(a, b) for _ in range(4)] + [a, b])
+    return near, pool, G.history_plans(hrng, pool)
+
+
+def usage_probe(rep, p, near, plans):
+    scal = []
+    for x, _i, d in near:
+        rep.count("scalar_query_distance_from_reference_point=1e%d" % int(np.floor(np.log10(abs(d)) + 1e-9)))
+        for kind in G.SCALAR_KINDS:
+            rep.count("scalar_query_container=" + kind)
+            v = p(G.make_query(kind, (), [x]))
+            scal.append((x, kind, np.shape(v), float(v) if np.shape(v) == () else float("nan")))
+    hist = []
+    for plan in plans:
+        rep.count("history(results kept across calls)=%s/%d-D" % (plan["container"], len(plan["shape"])))
+        obs, problems = G.run_history(p, plan)
+        hist.append((plan, obs, problems))
+    return scal, hist
+
+
+def judge_usage_upper(rep, f, inp, err, at, maxf, scal, hist):
+    """the property's upper-bound clause |f(x) - p(x)| <= err+atol+1e-11*max|f| for every value the returned polynomial
+    handed out in the usage strata; f(x) is enclosed (exact for polynomial f, mpmath otherwise) and the most favourable
+    value of the enclosure is taken, so a verdict does not depend on the rounding of the float f"""
+    Bq = Fr(err) + Fr(at) + Fr(1, 10 ** 11) * Fr(maxf) * (1 + Fr(1, 10 ** 9))
+    cache = {}
+
+    def excess(x, val):
+        if x not in cache:
+            lo, hi = G.enclose(f, [x])
+            cache[x] = (lo[0], hi[0])
+        lo, hi = cache[x]
+        if not np.isfinite(val):
+            return float("inf")
+        v = Fr(val)
+        dist = Fr(0) if lo <= v <= hi else min(abs(v - lo), abs(v - hi))
+        return float(dist - Bq) if dist > Bq else None
+    reported = 0
+    for x, kind, shp, val in scal:
+        rep.case(("upper-scalar", str(inp), x, kind))
+        ex = float("inf") if shp != () else excess(x, val)
+        if ex is not None:
+            rep.count("scalar_query_exceeds_upper_bound")
+            if reported < 1:
+                reported += 1
+                violate(rep, what="|f(x)-p(x)| at a scalar x next to a reference point exceeds err+atol+1e-11*max|f| "
+                                  "(local refinement with scalar calls of the returned polynomial; container: %s)" % kind,
+                        input=dict(inp, x=C.fhex(x), container=kind), x_float=x, p_of_x=val, result_shape=list(shp),
+                        expected="<= %r" % float(Bq), observed=float(Bq) + ex, err=err,
+                        call=snippet(inp).replace("minimax_polynomial_approximation(f, a, b, n, atol=atol)",
+                                                  "minimax_polynomial_approximation(f, a, b, n, atol=atol)[0](%s)"
+                                                  % {"pyfloat": "float(x)", "np.float64": "np.float64(x)"}.get(kind, "np.array(x)")))
+    def call_of(plan):
+        return (snippet(inp) + "[0] -> p; R = [p(q) for q in queries]  # every q a %s of shape %r; look at R only afterwards"
+                % (plan["container"], tuple(plan["shape"])))
+    for plan, obs, problems in hist:
+        done = reported >= 3
+        for o in obs:
+            for x, val in zip(o["xs"], o["values"]):
+                rep.case(("upper-history", str(inp), str(plan), o["stage"], o["call"], x))
+                rep.count("history_values_judged")
+                ex = excess(x, val)
+                if ex is not None:
+                    rep.count("history_values_exceeding_upper_bound")
+                if ex is not None and not done:
+                    done = True
+                    reported += 1
+                    violate(rep, what="|f(x)-p(x)| exceeds err+atol+1e-11*max|f| for the value returned by call %d of a "
+                                      "sequence of equally shaped queries on the returned polynomial, %s" % (o["call"], o["stage"]),
+                            input=dict(inp, x=C.fhex(x), history=G.plan_repr(plan), call_index=o["call"], stage=o["stage"]),
+                            x_float=x, p_of_x=val, expected="<= %r" % float(Bq), observed=float(Bq) + ex, err=err,
+                            call=call_of(plan))
+    structural = 0
+    for plan, obs, problems in hist:
+        for kind, detail in problems:
+            rep.case(("history-" + kind, str(inp), str(plan)))
+            rep.count("history_problem=" + kind)
+            if structural >= 1:
+                continue
+            structural += 1
+            violate(rep, what=("the returned polynomial is not shape-preserving in a repeated call: " if kind == "shape" else
+                               "values returned by the returned polynomial are not independent values (" + kind + "): ")
+                              + detail, input=dict(inp, history=G.plan_repr(plan)), call=call_of(plan))
+
+
+def hrng_sample(inp, near, k):
+    hrng = G.case_rng("C17-usage-exact", inp)
+    return hrng.sample(near, min(len(near), k))
+
+
 def run(seed, tier, replay=None):
     from opda import approximation as A, exceptions as E
     rep = C.Report("C17", seed, tier)
@@ -195,7 +303,8 @@ def run(seed, tier, replay=None):
         if not (err >= 0.0):
             violate(rep, what="reported error is not a non-negative number", input=inp, observed=err, call=snippet(inp))
             continue
-        pv = np.asarray(p(rs[:-1]), dtype=float)          # the values that define the returned polynomial
+        pv = np.array(p(rs[:-1]), dtype=float)            # the values that define the returned polynomial (copied at once)
+        pv_list = [float(v) for v in pv]
         if not np.all(np.isfinite(pv)) or not np.all(np.isfinite(ys)):
             violate(rep, what="the returned polynomial / function values are not finite on the reference", input=inp,
                     observed=pv, call=snippet(inp))
@@ -225,6 +334,23 @@ def run(seed, tier, replay=None):
         qs = [rng.uniform(a, b) for _ in range(4)] + [a, b, float(rs[-1])]
         reqs.append(("approx.lagr", "%s %s %s" % (C.flist(rs[:-1]), C.flist(pv), C.flist(qs))))
         meta.append(("lagr", ci, inp, dict(qs=qs, impl=np.asarray(p(np.array(qs)), dtype=float))))
+        # ---- usage axes: scalar queries next to the reference points, results kept across calls of the same callable; judged
+        #      by the upper-bound clause here and against the exact interpolant of the node values (C18 tolerance) below
+        near, pool, plans = usage_queries(inp, a, b, rs)
+        try:
+            scal, hist = usage_probe(rep, p, near, plans)
+        except Exception as e:  # noqa: BLE001
+            violate(rep, what="the returned polynomial raised on a scalar query / a repeated query of the same shape",
+                    error=repr(e), input=inp, call=snippet(inp))
+            scal, hist = [], []
+        judge_usage_upper(rep, f, inp, err, at, maxf, scal, hist)
+        # (exact rational evaluation is the expensive part of this harness: a sample of the scalar queries and of the pool)
+        uq = []
+        for x in [t[0] for t in hrng_sample(inp, near, 4)] + pool[:2] + pool[8:10]:
+            if x not in uq:
+                uq.append(x)
+        reqs.append(("approx.lagr", "%s %s %s" % (C.flist(rs[:-1]), C.flist(pv_list), C.flist(uq))))
+        meta.append(("lagr-usage", ci, inp, dict(qs=uq, scal=scal, hist=hist)))
         # ---- levelled interpolation: pv_i = ys_i - h (-1)^i with the model's exact h
         if np.all(np.diff(rs) > 0):
             reqs.append(("approx.level", "%d %s %s" % (n, C.flist(rs), C.flist(ys))))
@@ -313,6 +439,29 @@ def run(seed, tier, replay=None):
                     rep.disagree(op="lagr", note="returned callable differs from the exact interpolant of its node values by "
                                                  "more than 1e-13*sum|y_j l_j(x)|", input=inp, x=C.fhex(x),
                                  model=float(ev), impl=iv, call=snippet(inp))
+        elif kind == "lagr-usage":
+            exact = {}
+            for j, x in enumerate(d["qs"]):
+                exact[x] = (C.parse_ext(r[3 * j]), C.parse_ext(r[3 * j + 2]))
+            noted = 0
+            vals = [(x, val, "scalar query (%s)" % k) for x, k, _shp, val in d["scal"]]
+            for plan, obs, _problems in d["hist"]:
+                for o in obs:
+                    vals += [(x, val, "call %d of equally shaped queries (%s, shape %r), %s"
+                              % (o["call"], plan["container"], tuple(plan["shape"]), o["stage"]))
+                             for x, val in zip(o["xs"], o["values"])]
+            for x, val, how in vals:
+                if x not in exact:
+                    continue
+                ev, la = exact[x]
+                rep.case(("plagr-usage", str(inp), x, how), nontrivial=True)
+                if not np.isfinite(val) or abs(Fr(val) - ev) > REL * la:
+                    rep.count("usage_value_differs_from_exact_interpolant")
+                    if noted < 2:
+                        noted += 1
+                        rep.disagree(op="lagr", note="returned callable differs from the exact interpolant of its node values by "
+                                                     "more than 1e-13*sum|y_j l_j(x)|: " + how, input=inp, x=C.fhex(x),
+                                     x_float=x, model=float(ev), impl=val, call=snippet(inp))
         elif kind == "level":
             h, l0, l1 = (C.parse_ext(t) for t in r[:3])
             n = inp["n"]
@@ -338,7 +487,12 @@ def run(seed, tier, replay=None):
         rule="cases (f, a, b, n, atol): f in {x^k (k in (-0.9,6) non-integer incl. half-integers, [a,b] in (0,10]), exp(lx), "
              "log(x+d), 1/(x+d), polynomials of degree <= n+1}, b-a in [1e-3,10], n in 0..20, atol in {None} u [1e-13,1e-6]; a stratum "
              "with minimax error >= 1 (exp/x^k/reciprocal with large |f|, n <= 4); every 4th case is preceded by a call on the same "
-             "function object, interval and degree with a looser atol (history independence); "
+             "function object, interval and degree with a looser atol (history independence); the returned polynomial is also used "
+             "as a caller would: scalar queries (Python float, numpy scalar, 0-d array) at distances {1e-10..1e-6}*(b-a) and "
+             "{1e-9,1e-8} on both sides of the reference points, and sequences of equally shaped queries (scalars, lists, 1-/2-/3-D "
+             "arrays) whose results are kept without copying, one overwritten in place by the caller, the query array refilled in "
+             "place - every value handed out is judged by the upper-bound clause with f enclosed, and against the exact "
+             "interpolant of the node values; "
              "each returned result is checked by the verified alternation checker (when err-atol-1e-13 > 0), the grid upper "
              "bound, the continuum certificate (polynomial / half-integer power), exact fit, monotonicity in n; distinct = "
              "distinct (check, case) pairs.",
